@@ -15,7 +15,9 @@ import (
 // sanitize data values found in the HTML context defined by c.
 func sanitizerForContext(c context) ([]string, error) {
 	ret, err := sanitizerForInnermostContext(c)
-	if err == nil && c.enclosing != "" && (c.state == stateText || c.enclosing == "*") {
+	if err == nil && c.enclosing != "" && (c.state == stateText || c.state == stateSpecialElementBody && c.element.name == "iframe" || c.enclosing == "*") {
+		// (In foreign content an iframe element does not hold raw text: what the engine takes
+		// for the text of `<svg><iframe><script>{{.X}}</script>` is markup.)
 		// e.g. `<object><b>{{.X}}</b></object>`. If the kind of the enclosing element is not
 		// known, e.g. `{{if .C}}<script{{else}}<div{{end}}><b title="{{.X}}">`, what looks like
 		// a tag inside it may be text of a script.
